@@ -359,6 +359,48 @@ func (a *Act) blockIn(b *ssa.BasicBlock) *State {
 			o.Cand = inv.cand
 		}
 	}
+	// a loop under a tailrec relation starts from the function's own arguments: what the relation is
+	// about at the first arrival (form, scope, world ...) is what the caller passed, unchanged by
+	// anything the function did before the loop
+	if a.contract != nil && a.parent == nil {
+		if ts := a.contract.tailrec[li.ord]; ts != nil && ts.rel != nil && tr.wantClause(ts.rel) {
+			if call, ok := ts.rel.expr.(*ast.CallExpr); ok {
+				for phi, t := range phiEntry {
+					a.phiOverride[phi] = t
+				}
+				var errs []string
+				pkg := tr.eng.pkgOf(a.fn)
+				here := &specEnv{a: a, tr: tr, pkg: pkg, st: st, old: a.entryState, vars: map[string]specVal{}, li: li, errs: &errs}
+				entry := &specEnv{a: nil, tr: tr, pkg: pkg, st: a.entryState, old: a.entryState, errs: &errs,
+					vars: a.bindContract(a.contract, a.entryState, a.args, nil, a.fn.Signature, true)}
+				var eqs []Term
+				for _, x := range call.Args {
+					if id, ok := x.(*ast.Ident); ok && id.Name == "OUT" {
+						continue
+					}
+					eqs = append(eqs, Eq(here.eval(x).t, entry.eval(x).t))
+				}
+				for phi := range phiEntry {
+					delete(a.phiOverride, phi)
+				}
+				for _, m := range errs {
+					tr.specErr(fmt.Sprintf("%s (tailrec entry): %s", fnName(a.fn), m))
+				}
+				fname := fnName(a.fn)
+				loc := ""
+				for _, in := range li.header.Instrs {
+					if in.Pos().IsValid() {
+						loc, _ = a.srcLine(in.Pos())
+						break
+					}
+				}
+				base := fmt.Sprintf("%s/step/entry@loop%d", fname, li.ord)
+				tr.oblCount[base]++
+				tr.obls = append(tr.obls, &Obligation{Name: fmt.Sprintf("%s#%d", base, tr.oblCount[base]), Kind: "step", Fn: fname, Pos: loc,
+					Src: "the loop starts from the arguments as passed: " + ts.rel.text, Guard: st.reach, Goal: And(eqs...)})
+			}
+		}
+	}
 	// havoc
 	hs := st.copy()
 	hs.reach = tr.define("reach_loop", "Bool", st.reach)
